@@ -145,18 +145,8 @@ def predicate(ctx, optic, case, par, w):
         ctx.count('pred: %s sequence checked' % kind)
 
 
-def run(tier, seed, replay=None):
-    ctx = Ctx('C05', tier, seed)
-    ctx.stats['rule'] = ('24 samples + random axially symmetric lenses (planes, conics, even aspheres without r^2 term, '
-                         'mirrors, finite/infinite object, any stop position); eps = 2^-k over > 2 decades for '
-                         'marginal-type and chief-type rays; distinct by descriptor hash')
-    aud = audit('C05')
+def work(ctx, cases):
     drv = Driver()
-    if replay:
-        cases = [replay]
-    else:
-        cases = [{'sample': n} for n, _ in lensgen.sample_classes()]
-        cases += [gen_case(ctx.rng) for _ in range(150 if ctx.quick() else 5000)]
     lines, keep = [], []
     for case in cases:
         try:
@@ -215,6 +205,21 @@ def run(tier, seed, replay=None):
         case2 = dict(case)
         case2['r2_term'] = has_r2
         predicate(ctx, optic, case2, par, w)
+
+
+def run(tier, seed, replay=None):
+    ctx = Ctx('C05', tier, seed)
+    ctx.stats['rule'] = ('24 samples + random axially symmetric lenses (planes, conics, even aspheres without r^2 term, '
+                         'mirrors, finite/infinite object, any stop position); eps = 2^-k over > 2 decades for '
+                         'marginal-type and chief-type rays; distinct by descriptor hash')
+    aud = audit('C05')
+    if replay:
+        cases = [replay]
+    else:
+        cases = [{'sample': n} for n, _ in lensgen.sample_classes()]
+        cases += [gen_case(ctx.rng) for _ in range(150 if ctx.quick() else 5000)]
+    from .core import run_parallel
+    run_parallel(ctx, 'harness.c05', 'work', cases, nproc=4 if ctx.quick() else None)
     return finish(ctx, aud,
                   partial=['rate of convergence (O(eps^2)) is measured, not proved; the jet theorem is proved for one '
                            'refracting conic surface, the whole-lens statement is exercised through the jet driver'],
